@@ -503,4 +503,12 @@ def r12_6(run):
     run.floor(15)
 
 
-RULES = [("R12.1", r12_1), ("R12.2", r12_2), ("R12.3", r12_3), ("R12.4", r12_4), ("R12.5", r12_5), ("R12.6", r12_6)]
+def r12_7(run):
+    """a calculation starts from fresh result tables: init_results_element rebinds every result table on every path (shared with
+    C05 R5.8 / C06 R6.9); a table kept from an earlier run and reset in place depends on how that frame is stored (a frame with one
+    block per column, as restored from a pickle, is not reset through `.values`) and so on what was calculated before"""
+    from .c05 import r5_8
+    r5_8(run)
+
+
+RULES = [("R12.1", r12_1), ("R12.2", r12_2), ("R12.3", r12_3), ("R12.4", r12_4), ("R12.5", r12_5), ("R12.6", r12_6), ("R12.7", r12_7)]
